@@ -11,12 +11,12 @@ template <class F> CallResult guardedCall(F &&f) { CallResult r; try { f(); } ca
 using namespace coloquinte;
 
 struct Inst {
-  int kind;  // 0 integer costs, 1..3 float costs with scale index kind-1, 4 over-full + increaseCapacity (int costs)
+  int kind;  // 0 integer costs, 1..3 and 6..7 float costs with scale index, 4 over-full + increaseCapacity (int costs)
   std::vector<long long> cap, dem;
   std::vector<int> cost;  // sinks x sources, row-major
 };
 
-static const float SCALES[3] = {1.0f, 0.37f, 1.0e4f};
+static const float SCALES[5] = {1.0f, 0.37f, 1.0e4f, 1.5e38f, 1.0e-4f};  // kinds 1..3 and 6, 7 (up to the top of the float range; costs below 1e-8 are zero for the solver by design)
 static const long long BIGQ = 1500000000LL;  // kind 5: demands and capacities multiplied by this (areas are 64-bit)
 
 static std::string enc(const Inst &in) {
@@ -68,6 +68,7 @@ static vf::Verdicts eval(const Inst &in, vf::Ctx &ctx) {
   int K = in.cap.size(), M = in.dem.size();
   auto fail = [&](const std::string &cls, const std::string &msg) { out.push_back({cls, msg + " | " + enc(in)}); };
   std::optional<TransportationProblem> pb;
+  bool isFloat = (in.kind >= 1 && in.kind <= 3) || in.kind == 6 || in.kind == 7;
   Inst inBig = in;
   if (in.kind == 5) {
     for (auto &x : inBig.cap) x *= BIGQ;
@@ -75,10 +76,10 @@ static vf::Verdicts eval(const Inst &in, vf::Ctx &ctx) {
   }
   const Inst &inq = in.kind == 5 ? inBig : in;
   try {
-    if (in.kind >= 1 && in.kind <= 3) {
+    if (isFloat) {
       std::vector<std::vector<float>> fc(K, std::vector<float>(M));
       for (int i = 0; i < K; ++i)
-        for (int j = 0; j < M; ++j) fc[i][j] = in.cost[i * M + j] * SCALES[in.kind - 1];
+        for (int j = 0; j < M; ++j) fc[i][j] = in.cost[i * M + j] * SCALES[in.kind <= 3 ? in.kind - 1 : in.kind - 3];
       pb.emplace(inq.cap, inq.dem, fc);
     } else {
       std::vector<std::vector<CostType>> ic(K, std::vector<CostType>(M));
@@ -129,6 +130,17 @@ static vf::Verdicts eval(const Inst &in, vf::Ctx &ctx) {
   if (in.kind == 5) opt = bruteMin(in.cap, in.dem, pb->costs()) * BIGQ;  // the optimum is linear in a common quantity factor
   else opt = bruteMin(pb->capacities(), in.dem, pb->costs());
   if (cost != opt) fail("plan-not-optimal", "cost " + std::to_string(cost) + " > optimum " + std::to_string(opt));
+  if (isFloat) {
+    // the float costs are the instance's small integers times a positive constant: the plan must also be optimal for those
+    // integers (this does not go through the solver's own fixed-point conversion)
+    std::vector<std::vector<CostType>> ic(K, std::vector<CostType>(M));
+    long long costInt = 0;
+    for (int i = 0; i < K; ++i)
+      for (int j = 0; j < M; ++j) { ic[i][j] = in.cost[i * M + j]; costInt += al[i][j] * (long long)in.cost[i * M + j]; }
+    long long optInt = bruteMin(pb->capacities(), in.dem, ic);
+    if (costInt != optInt)
+      fail("plan-not-optimal-for-the-given-float-costs", "cost " + std::to_string(costInt) + " > optimum " + std::to_string(optInt) + " in units of the common factor");
+  }
   // derived assignment: an arg-max of the allocations of each source
   std::vector<int> as = pb->toAssignment();
   if ((int)as.size() != M) fail("assignment-size", "");
@@ -190,7 +202,7 @@ int main(int argc, char **argv) {
   int maxN = 3, maxDem = 2, maxCap = 3, maxCost = 2;
   c.rule =
       "all problems with 1..3 sinks, 1..3 sources (thorough: also 4x2, 2x4, 4x3 with costs {0,1,3}), demands 1..2, capacities 1..3, integer costs "
-      "0..2 (one large-spread value in thorough), total demand <= total capacity; 3 sinks x 4 sources with binary costs, demands/capacities 1..3; 4x4 assignment problems with costs {0,1,2} (quick: last sink free);  the float constructor on the same costs scaled by {1, 0.37, 1e4} "
+      "0..2 (one large-spread value in thorough), total demand <= total capacity; 3 sinks x 4 sources with binary costs, demands/capacities 1..3; 4x4 assignment problems with costs {0,1,2} (quick: last sink free);  the float constructor on the same costs scaled by {1, 0.37, 1e4} and, on the smallest shapes, by {1.5e38, 1e-4} (the top of the float range and small costs above the 1e-8 floor below which the solver treats costs as zero) (optimality also judged in the instance's own integer costs, independently of the solver's fixed-point conversion) "
       "(sizes up to 3x2/2x3 in quick); over-full variants after increaseCapacity(); oracle = direct feasibility sums, brute-force minimum over all "
       "integer allocations in the problem's own fixed-point costs, arg-max rule for toAssignment(); non-trivial = a capacity constraint is binding";
   c.bounds = th ? "<=4x3" : "<=3x3";
@@ -217,6 +229,7 @@ int main(int argc, char **argv) {
         gen(K, M, 0, cv, maxCap, maxDem);
         if (K * M <= 6 || th) {
           for (int kind = 1; kind <= 3; ++kind) gen(K, M, kind, cv, maxCap, maxDem);
+          if (K * M <= 4 || th) for (int kind = 6; kind <= 7; ++kind) gen(K, M, kind, cv, maxCap, maxDem);
         }
         if (K * M <= 6 || th) gen(K, M, 4, cv, 2, 3);
       }
